@@ -8,7 +8,7 @@ import (
 // obligations listed as unclaimed in the baseline of the property being checked
 var evidenceUnclaimed map[string]bool
 
-var safetyNameRe =regexp.MustCompile(`:(nil|index|slice|div0|shift|typeassert|chan|makeslice|nilmap|panic):\d+$`)
+var safetyNameRe =regexp.MustCompile(`:(nil|index|slice|div0|shift|typeassert|chan|makeslice|nilmap|panic|frame|atomic):\d+$`)
 
 func isKnownFinding(prop, obligation string) bool {
 	var known []KnownFinding
